@@ -242,4 +242,29 @@ MUTANTS = {
     "rev_fix_eo_dataframe_y": {
         "props": ["C12"], "what": "revert fix b18a4c8: labels.sum().loc[0]",
         "edits": [(TO, "            n_positive = labels.sum().iloc[0]", "            n_positive = labels.sum().loc[0]")]},
+    # ---------------------------------------------------------------- C10 randomised predictors
+    "rev_fix_eg_regression_weight_alignment": {
+        "props": ["C10"], "what": "revert fix c50e7e5: regression predict pairs columns 0..T-1 with weights_ in support order",
+        "edits": [(EG, "p=self.weights_[pred.columns])", "p=self.weights_)")]},
+    "rev_fix_predict_ge": {
+        "props": ["C10"], "what": "revert fix 507e3cb: p >= u",
+        "edits": [(EG, "return (positive_probs > random_state.rand(len(positive_probs))) * 1", "return (positive_probs >= random_state.rand(len(positive_probs))) * 1"),
+                  (IT, "return (positive_probs > random_state.rand(len(positive_probs))) * 1", "return (positive_probs >= random_state.rand(len(positive_probs))) * 1")]},
+    "eg_mixture_unaligned_dot": {
+        "props": ["C10"], "what": "EG positive probability: predictor columns in id order dotted with weights_ in support order",
+        "edits": [(EG, "            positive_probs = pred[self.weights_.index].dot(self.weights_).to_frame()", "            positive_probs = pd.DataFrame(pred.values.dot(self.weights_.values))")]},
+    "thresholder_predict_inverted": {
+        "props": ["C10"], "what": "InterpolatedThresholder.predict compares the draw with 1-p",
+        "edits": [(IT, "return (positive_probs > random_state.rand(len(positive_probs))) * 1", "return (1 - positive_probs < random_state.rand(len(positive_probs))) * 1")]},
+    "p_ignore_mixing_swapped": {
+        "props": ["C10", "C04", "C05"], "what": "p_ignore and 1-p_ignore swapped in the pmf",
+        "edits": [(IT, "                    interpolation.p_ignore * interpolation.prediction_constant\n                    + (1 - interpolation.p_ignore) * interpolated_predictions",
+                   "                    (1 - interpolation.p_ignore) * interpolation.prediction_constant\n                    + interpolation.p_ignore * interpolated_predictions")]},
+    "thresholder_rule_by_position": {
+        "props": ["C10", "C13"], "what": "predict-time rule selected with the group labels of the fit-time order (first-seen order of the query)",
+        "edits": [(IT, "            positive_probs[sensitive_feature_vector == a] = interpolated_predictions[\n                sensitive_feature_vector == a\n            ]",
+                   "            _a = sorted(sensitive_feature_vector.unique())[min(list(self.interpolation_dict).index(a), sensitive_feature_vector.nunique() - 1)]\n            positive_probs[sensitive_feature_vector == _a] = interpolated_predictions[\n                sensitive_feature_vector == _a\n            ]")]},
+    "predict_seed_ignored": {
+        "props": ["C10"], "what": "EG.predict ignores random_state (fresh entropy)",
+        "edits": [(EG, "        random_state = check_random_state(random_state)\n\n        if isinstance(self.constraints, ClassificationMoment):", "        random_state = check_random_state(None)\n\n        if isinstance(self.constraints, ClassificationMoment):")]},
 }
